@@ -31,7 +31,7 @@ from simkit.rng import seed_globals  # noqa: E402
 from simkit.world import InvalidScenario, Monitor, Violation, repo_exception_sig, result, run_sim  # noqa: E402
 
 PROPERTY = "C08"
-RUNS = {"quick": 6_000, "thorough": 600_000}
+RUNS = {"quick": 10_000, "thorough": 600_000}
 WALL = {"quick": 50, "thorough": 1500}
 BATCH = {"quick": 125, "thorough": 1000}
 SELFTEST_RUNS = 24
@@ -92,6 +92,8 @@ EXPECTED_PROBES = [
     "probe.shift_capacity_raised", "probe.dynamic_limit_raised", "probe.pooled_handover", "probe.pooled_arrival_during_handover",
     "probe.batch_timeout_flush", "probe.gate_flush", "probe.gate_held", "probe.held_at_end_by_contract",
     "probe.poll_found_nothing", "probe.policy_push_rejected", "probe.two_stage",
+    "probe.configured_policy_on_shifted_or_reneging", "probe.shift_first_arrival_in_later_shift",
+    "probe.batch_of_one_with_timeout_processed_at_once",
 ]
 SHRINK_SKIP = ("kind", "type", "model", "mode", "flow", "flow_weights", "max_p", "weight", "prob")
 SHRINK_BUDGET_S = {"quick": 20.0, "thorough": 60.0}
@@ -155,19 +157,16 @@ def gen_stage(rng, kind, serial, avoid_shift, idx=0):
         return st
     if kind in ("driver", "reneging"):
         svc = {"mode": "const", "ticks": rng.choice([0, 1, 2, 3])} if rng.random() < 0.5 else {"mode": "item"}
-        pol = gen_policy_cfg(rng)
-        if kind == "reneging" and (avoid_shift or rng.random() < 0.7):
-            pol = {"type": "fifo", "cap": None}     # avoidance: the policy argument is ignored today (recorded finding)
-        st = {"kind": kind, "limit": lim, "policy": pol, "svc": svc}
+        st = {"kind": kind, "limit": lim, "policy": gen_policy_cfg(rng), "svc": svc}
         if kind == "reneging":
             st["patience_ticks"] = None if rng.random() < 0.3 else rng.randint(0, 8)
         return st
     if kind == "shifted":
         if avoid_shift:
-            # avoidance: capacity never rises under backlog and the first arrival sees the shift of t=0
-            end = rng.randint(4, 40) if idx == 0 else 100_000
-            shifts = [[0, end, 1]]
-            default = 0
+            # avoidance: capacity never rises under backlog (recorded finding: nobody polls at a raise)
+            start = rng.choice([0, 0, rng.randint(1, 4)])
+            shifts = [[start, start + rng.randint(4, 40), 1]]
+            default = 1 if start else 0
         else:
             shifts, t = [], rng.choice([0, 0, rng.randint(1, 6)])
             for _ in range(rng.randint(1, 4)):
@@ -175,10 +174,7 @@ def gen_stage(rng, kind, serial, avoid_shift, idx=0):
                 shifts.append([t, t + d, rng.choice([0, 0, 1, 1, 2, 3]) if not serial else rng.choice([0, 1, 1])])
                 t += d + rng.choice([0, 0, rng.randint(1, 5)])
             default = rng.choice([0, 0, 1]) if not serial else rng.choice([0, 0, 1])
-        pol = gen_policy_cfg(rng)
-        if avoid_shift or rng.random() < 0.7:
-            pol = {"type": "fifo", "cap": None}     # avoidance: the policy argument is ignored today (recorded finding)
-        return {"kind": kind, "shifts": shifts, "default": default, "policy": pol,
+        return {"kind": kind, "shifts": shifts, "default": default, "policy": gen_policy_cfg(rng),
                 "svc": {"mode": "const", "ticks": rng.randint(1, 4)}}
     if kind == "pooled":
         return {"kind": kind, "pool": 1 if serial else rng.randint(1, 3), "cycle_ticks": rng.choice([0, 1, 2, 2, 3, 5]),
@@ -186,8 +182,6 @@ def gen_stage(rng, kind, serial, avoid_shift, idx=0):
     if kind == "batch":
         st = {"kind": kind, "size": rng.randint(1, 5), "proc_ticks": rng.randint(0, 4),
               "timeout_ticks": rng.choice([0, 0, rng.randint(1, 8), rng.randint(1, 8)])}
-        if avoid_shift and st["size"] == 1:
-            st["timeout_ticks"] = 0                 # avoidance: batch of one with a timeout (recorded finding)
         return st
     if kind == "conveyor":
         return {"kind": kind, "transit_ticks": rng.randint(0, 5), "cap": rng.choice([0, 0, 1, 2, 3])}
@@ -244,9 +238,6 @@ def gen_pipeline(rng, tier, seed):
         cand = sorted(set(cand) | set(rng.sample(hot, min(len(hot), rng.randint(1, 3)))))
     p_hop = rng.choice([0.0, 0.3, 0.6])
     arrivals = []
-    first_shift_edge = None
-    if avoid and stages[0]["kind"] == "shifted":
-        first_shift_edge = stages[0]["shifts"][0][1]
     for i in range(n):
         tick = rng.choice(cand)
         a = {"tick": tick, "off": (i + 1) * 1009 if offgrid else 0,
@@ -255,11 +246,6 @@ def gen_pipeline(rng, tier, seed):
              "dl": rng.randint(0, 20), "pat": None if rng.random() < 0.5 else rng.randint(0, 10),
              "svc": rng.choice([0, 1, 1, 2, 3, 5])}
         arrivals.append(a)
-    if first_shift_edge is not None and arrivals:
-        arrivals[0]["tick"] = min(arrivals[0]["tick"], max(0, first_shift_edge - 1))
-        # make sure the first arrival really is the earliest event the server sees
-        m = min(a["tick"] for a in arrivals)
-        arrivals[0]["tick"] = min(arrivals[0]["tick"], m)
     ctl = []
     for si, st in enumerate(stages):
         if st["kind"] == "server" and st["conc"]["model"] == "dynamic" and not serial:
